@@ -93,8 +93,14 @@ pub fn rand_placed_lib(rng: &mut Rng, max_cells: usize, with_abstracts: bool) ->
             for k in 0..rng.usize(5) {
                 let j = rng.usize(i);
                 d.push(j);
+                // instance names are the user's: now and then the name of the cell that holds the instance, or of the cell it places
+                let inst_name = match rng.below(10) {
+                    0 => name.clone(),
+                    1 => names[j].clone(),
+                    _ => format!("i{}_{}", i, k),
+                };
                 lay.instances.add(Instance {
-                    inst_name: format!("i{}_{}", i, k),
+                    inst_name,
                     cell: cells[j].clone(),
                     loc: Place::Abs(Xy::new(PrimPitches::x(rng.range(-300, 300) as isize), PrimPitches::y(rng.range(-300, 300) as isize))),
                     reflect_horiz: rng.bool(),
@@ -109,6 +115,14 @@ pub fn rand_placed_lib(rng: &mut Rng, max_cells: usize, with_abstracts: bool) ->
             lay.cuts.push(rand_cross(rng));
         }
         let mut cell = Cell::new(name.clone());
+        // one leaf in eight is a bare cell: a name and nothing else yet (an interface-only cell, a black box); it can be placed like any other
+        let bare = d.is_empty() && lay.assignments.is_empty() && lay.cuts.is_empty() && rng.chance(1, 8);
+        if bare {
+            names.push(name);
+            deps.push(d);
+            cells.push(Ptr::new(cell));
+            continue;
+        }
         if with_abstracts && rng.chance(1, 4) {
             cell.abs = Some(tet::abs::Abstract::new(name.clone(), lay.metals, lay.outline.clone()));
         }
